@@ -142,7 +142,7 @@ pub fn payload_for(rng: &mut Rng, max: usize) -> Vec<u8> {
         0 => 0,
         1 => 1,
         2 | 3 => rng.range(2, 400),
-        4 => rng.range(400, 9000),
+        4 => rng.range(400, if crate::framework::small_mode() { 900 } else { 9000 }),
         _ => rng.range(0, if crate::framework::small_mode() { max.min(1500) } else { max }),
     };
     match rng.below(4) {
